@@ -288,7 +288,7 @@ class null_archive(archive):
     def __setitem__(self, key, value):
         pass
     __setitem__.__doc__ = dict.__setitem__.__doc__
-    def update(self, adict, **kwds):
+    def update(self, adict=(), **kwds):
         pass
     update.__doc__ = dict.update.__doc__
     def setdefault(self, key, *value):
@@ -495,7 +495,7 @@ class dir_archive(archive):
         self.__setitem__(key, res)
         return res
     setdefault.__doc__ = dict.setdefault.__doc__
-    def update(self, adict, **kwds):
+    def update(self, adict=(), **kwds):
         if hasattr(adict,'__asdict__'): adict = adict.__asdict__()
         memo = {}
         memo.update(adict, **kwds) #XXX: could be better ?
@@ -890,7 +890,7 @@ class file_archive(archive):
         self.__setitem__(key, res)
         return res
     setdefault.__doc__ = dict.setdefault.__doc__
-    def update(self, adict, **kwds):
+    def update(self, adict=(), **kwds):
         if hasattr(adict,'__asdict__'): adict = adict.__asdict__()
         memo = self.__asdict__()
         memo.update(adict, **kwds)
@@ -1150,7 +1150,7 @@ if sql:
           self.__setitem__(key, res)
           return res
       setdefault.__doc__ = dict.setdefault.__doc__
-      def update(self, adict, **kwds):
+      def update(self, adict=(), **kwds):
           if hasattr(adict,'__asdict__'): adict = adict.__asdict__()
           memo = {}
           memo.update(adict, **kwds) #XXX: could be better ?
@@ -1507,7 +1507,7 @@ if sql:
               self.__setitem__(key, _value)
           return _value
       setdefault.__doc__ = dict.setdefault.__doc__
-      def update(self, adict, **kwds):
+      def update(self, adict=(), **kwds):
           if hasattr(adict,'__asdict__'): adict = adict.__asdict__()
           elif hasattr(adict, 'copy'): adict = adict.copy()
           else: adict = dict(adict)
@@ -1738,7 +1738,7 @@ else:
               self.__setitem__(key, _value)
           return _value
       setdefault.__doc__ = dict.setdefault.__doc__
-      def update(self, adict, **kwds):
+      def update(self, adict=(), **kwds):
           if hasattr(adict,'__asdict__'): adict = adict.__asdict__()
           elif hasattr(adict, 'copy'): adict = adict.copy()
           else: adict = dict(adict)
@@ -2031,7 +2031,7 @@ if hdf:
           self.__setitem__(key, res)
           return res
       setdefault.__doc__ = dict.setdefault.__doc__
-      def update(self, adict, **kwds):
+      def update(self, adict=(), **kwds):
           if hasattr(adict,'__asdict__'): adict = adict.__asdict__()
           memo = {}
           memo.update(adict, **kwds)
@@ -2209,7 +2209,7 @@ if hdf:
           self.__setitem__(key, res)
           return res
       setdefault.__doc__ = dict.setdefault.__doc__
-      def update(self, adict, **kwds):
+      def update(self, adict=(), **kwds):
           if hasattr(adict,'__asdict__'): adict = adict.__asdict__()
           memo = {}
           memo.update(adict, **kwds) #XXX: could be better ?
